@@ -73,6 +73,11 @@ func (e *Engine) externWrites(f *ssa.Function) *WriteSet {
 		return w
 	case p == "sync":
 		return w
+	case p == "container/list":
+		e.listKeys()
+		w.Heap[gListLen] = true
+		w.Heap[gListTid] = true
+		return w
 	case p == "bufio" && f.Signature.Recv() != nil && strings.Contains(f.Signature.Recv().Type().String(), "Reader"):
 		e.ghostKeys()
 		w.Heap[gBrPos] = true
@@ -136,7 +141,7 @@ func (e *Engine) callValue(s *State, fr *Frame, dst *ssa.Call, cc *ssa.CallCommo
 		fr.curRecv = fnv
 	}
 	fr.callCnt[calleeName]++
-	anchor := fmt.Sprintf("%s#%d", calleeName, fr.callCnt[calleeName])
+	anchor := fmt.Sprintf("%s#%d", calleeName, e.callOrdinal(site))
 	e.applyAts(s, fr, anchor, "before", cc, args, nil, site)
 
 	setResult := func(v Value) {
@@ -247,6 +252,10 @@ func (e *Engine) callFunction(s *State, fr *Frame, dst *ssa.Call, f *ssa.Functio
 		setResult(v)
 		return nil, false
 	}
+	if v, handled := e.modelList(s, fr, dst, key, f, args, site); handled {
+		setResult(v)
+		return nil, false
+	}
 	if v, succ, handled, done := e.modelCall(s, fr, dst, key, f, args, site); handled {
 		if done {
 			return succ, true
@@ -325,7 +334,7 @@ func (e *Engine) inlineOK(f *ssa.Function) bool {
 // afterCall is invoked when an inlined callee returns.
 func (e *Engine) afterCall(s *State, caller *Frame, call *ssa.Call, f *ssa.Function, rv Value) {
 	name := calleeShortName(call.Common())
-	anchor := fmt.Sprintf("%s#%d", name, caller.callCnt[name])
+	anchor := fmt.Sprintf("%s#%d", name, e.callOrdinal(call))
 	var args []Value
 	for _, a := range call.Common().Args {
 		if v, ok := caller.regs[a]; ok {
@@ -695,7 +704,7 @@ func (e *Engine) applyAts(s *State, fr *Frame, anchor, when string, cc *ssa.Call
 			}
 			s.assume(t)
 		case "set":
-			env := &Env{s: s, fr: fr, vars: vars, vtypes: vtypes}
+			env := e.mkEnv(s, fr, vars, vtypes)
 			tv, err := e.eval(env, at.Clause.Expr)
 			if err != nil {
 				e.bail("at %s set %s: %v", anchor, at.Target, err)
